@@ -82,6 +82,24 @@ func genC06(tier string, seed uint64, emit func(string)) {
 		emit(segsCase("hostile", [][]byte{bytes.Repeat([]byte("*1\r\n"), d)}))
 		emit(segsCase("hostile", [][]byte{append(bytes.Repeat([]byte("*1\r\n"), d), []byte(":1\r\n")...)}))
 	}
+	// large bulk strings up to the 1 MiB bound: declared sizes 2^k + c (where buffers that start at a power of two and
+	// double have their critical sizes), payload complete / one byte short, terminator right / wrong / missing
+	offs := []int{-2, -1, 0, 1, 2, 3, 4, 7, 8}
+	if tier == "thorough" {
+		offs = nil
+		for c := -12; c <= 12; c++ {
+			offs = append(offs, c)
+		}
+	}
+	for k := 12; k <= 19; k++ {
+		for _, c := range offs {
+			n := 1<<k + c
+			emit(fmt.Sprintf("bulk %d %d %s", n, n, hx([]byte("\r\n"))))
+			emit(fmt.Sprintf("bulk %d %d %s", n, n, hx([]byte("xy"))))
+			emit(fmt.Sprintf("bulk %d %d -", n, n))
+			emit(fmt.Sprintf("bulk %d %d -", n, n-1))
+		}
+	}
 	// nesting up to the 1 MiB bound of the property (4 bytes per level), with and without an innermost value
 	for _, d := range []int{65536, 131072, 262143} {
 		emit(fmt.Sprintf("deep %d -", d))
@@ -124,6 +142,24 @@ func genC06(tier string, seed uint64, emit func(string)) {
 var bigDecl = regexp.MustCompile(`[$*]\+?[0-9]{8,}`)
 
 func runC06(toks []string) Result {
+	if toks[0] == "bulk" {
+		// "bulk <declared> <present> <tailhex>": a bulk header declaring <declared> bytes, <present> payload bytes 'a', then
+		// <tail> (the terminator, a wrong one, or nothing) - compact form of large inputs up to the 1 MiB bound
+		decl, _ := strconv.Atoi(toks[1])
+		present, _ := strconv.Atoi(toks[2])
+		stream := append([]byte(fmt.Sprintf("$%d\r\n", decl)), bytes.Repeat([]byte("a"), present)...)
+		stream = append(stream, unhx(toks[3])...)
+		_, vals, end := streamOutcome([][]byte{stream}, 4)
+		obs := end
+		if len(vals) > 0 {
+			obs = fmt.Sprintf("v len=%d kind=%c ; %s", len(vals[0].P), vals[0].Kind, end)
+		}
+		oracle := "ok"
+		if end == "panic" {
+			oracle = "fail:parser panicked"
+		}
+		return Result{Obs: obs, Oracle: oracle, Tags: []string{"end-" + end, "bulk", "nt"}}
+	}
 	if toks[0] == "deep" {
 		// nesting near the 1 MiB bound: a stack overflow is a fatal error no recover() catches, so always in a child
 		if os.Getenv("VH_CHILD") == "" {
